@@ -44,10 +44,79 @@ class Event:
         return repr(self.eff)
 
 
+AGENT_LISTS = {'lec_targets': 'num_lecturers', 'lec_upper_quotas': 'num_lecturers', 'lec_lower_quotas': 'num_lecturers',
+               'proj_upper_quotas': 'num_projects', 'proj_lower_quotas': 'num_projects', 'proj_lecturers': 'num_projects'}
+
+
+def normalise_agent_loops(it, effs):
+    """`for k, uq in enumerate(model.lec_upper_quotas)` (a loop or comprehension over a per-agent list of the model, one entry
+    per agent by C10) is the loop `for k in range(num_lecturers)` with uq = model.lec_upper_quotas[k]"""
+    from .absint import map_effects
+    from .canon import replace
+    found = {}
+    def scan_term(t):
+        for x in walk(t):
+            if x[0] == 'bvar' and lp.model_attr(x[3]) in AGENT_LISTS and x not in found:
+                n = A(x[3][1], AGENT_LISTS[lp.model_attr(x[3])])
+                found[x] = ('bvar', next(it.ids), 'k', CALL(S('range'), [n]))
+    for e, ctx in iter_effects(effs):
+        for k_, v in e.__dict__.items():
+            if isinstance(v, tuple) and v and isinstance(v[0], str):
+                scan_term(v)
+            elif isinstance(v, tuple):
+                for y in v:
+                    if isinstance(y, tuple) and y and isinstance(y[0], str):
+                        scan_term(y)
+    if not found:
+        return effs
+    def rw(t):
+        if t[0] == 'indexof' and t[1] in found:
+            return found[t[1]]
+        return None
+    effs = map_effects(effs, rw)          # indexof(b) -> k while b is still intact inside
+    def apply(es):
+        out = es
+        def walk_e(es2):
+            for e in es2:
+                for name, v in list(e.__dict__.items()):
+                    if name in ('func', 'node', 'returns', 'ctrl', 'then', 'orelse', 'body'):
+                        continue
+                    if name == 'binder':
+                        if v in found:
+                            e.binder = found[v]
+                        continue
+                    if isinstance(v, tuple) and v and isinstance(v[0], str):
+                        e.__dict__[name] = subst_chain(v)
+                    elif isinstance(v, tuple):
+                        e.__dict__[name] = tuple(subst_chain(y) if (isinstance(y, tuple) and y and isinstance(y[0], str)) else y for y in v)
+                for fld in ('then', 'orelse', 'body'):
+                    if isinstance(getattr(e, fld, None), list):
+                        walk_e(getattr(e, fld))
+        walk_e(out)
+        return out
+    def subst_chain(t):
+        # chain binders become k, every other occurrence of b (a value) becomes X[k]
+        t2 = t
+        for b, k_ in found.items():
+            t2 = replace_values(t2, b, I(b[3], k_))
+        return t2
+    def replace_values(t, b, new):
+        if not isinstance(t, tuple):
+            return t
+        if t == b:
+            return new
+        if t and isinstance(t[0], str) and t[0] in ('comp', 'sum', 'dictcomp'):
+            ch = tuple((found[bb] if bb == b else replace_values(bb, b, new), replace_values(g, b, new)) for bb, g in t[1])
+            return (t[0], ch) + tuple(replace_values(x, b, new) if isinstance(x, tuple) else x for x in t[2:])
+        return tuple(replace_values(x, b, new) if isinstance(x, tuple) else x for x in t)
+    return apply(effs)
+
+
 class LPRun:
     def __init__(self, repo, pc, stab, criteria, twopl=S('TWOPL')):
         self.repo, self.pc, self.stab, self.criteria = repo, pc, stab, criteria
         self.it, self.effs = lp.extract(repo, pc, stab, criteria, twopl=twopl)
+        self.effs = normalise_agent_loops(self.it, self.effs)
         self.canon = lp.Canon(self.it, self.effs)
         self.events = []
         n = 0
